@@ -187,6 +187,19 @@ def run_threaded(kind, seed, script, rt=3.0, answer=0.1, hold=0.0):
                 if kind == "tcp":
                     d.answer = None
                     d.pending.clear()
+            elif tok in ("race-disconnect", "race-read-error"):
+                # a request arrives; exactly when the poll thread is about to send the reply (it polls every 0.02 s
+                # from t=0) the user disconnects / the link fails: the simulation interleaves the two at lock points
+                feed(d, REQ)
+                k = int(sim.now / 0.02) + sim.rng.choice([1, 1, 2])
+                sim.block(until=k * 0.02)
+                if tok == "race-disconnect":
+                    gw.tasks.transport.disconnect()
+                    disconnected = True
+                elif kind == "serial":
+                    d.err = serial.SerialException("unplugged")
+                else:
+                    d.rerr = ConnectionResetError(104, "Connection reset by peer")
             vt_sleep(0.5)
             if tok in ("peer-eof", "silence") and kind == "tcp":
                 # the library can only notice through a failing write or the watchdog: give it 3 x rt
@@ -528,7 +541,7 @@ def check(events, meta):
     else:
         V.append(("stop-did-not-return", "stop() never returned"))
     # (4b) a healthy link is never dropped: every close before stop / user disconnect is explained by a scripted fault
-    FAULTS = ("read-error", "write-error", "peer-eof", "peer-reset", "silence")
+    FAULTS = ("read-error", "write-error", "peer-eof", "peer-reset", "silence", "race-read-error", "race-disconnect")
     for i, e in enumerate(events[:horizon] if meta.get("answer") is not None else []):
         if e[1] == "DEV-CLOSE":
             cid = e[2]
@@ -542,7 +555,12 @@ def check(events, meta):
             if not w:
                 V.append((f"request-unanswered:{kind}:{fl}", f"config request at t={e[0]} on connection {e[3]} not answered"))
     for n, tname, msg in meta.get("thread_errors", []):
-        V.append((f"thread-died:{tname}:{kind}:{fl}", f"library thread {n} died: {tname}: {msg}"))
+        if str(n).startswith("_poll_queue"):
+            V.append((f"thread-died:{tname}:{kind}:{fl}", f"the poll thread died: {tname}: {msg}"))
+        else:
+            # a reader / connect thread ending with an exception is judged by its consequences (callback counts,
+            # reconnects, unanswered requests), not by itself: no statement is about those threads
+            meta["other_thread_errors"] = meta.get("other_thread_errors", 0) + 1
     for msg in meta.get("loop_errors", []):
         V.append((f"loop-error:{kind}:{fl}", f"unhandled error in the event loop: {msg}"))
     return V
